@@ -54,6 +54,7 @@ import (
 	"log/slog"
 	"maps"
 	"net/http"
+	"slices"
 	"time"
 
 	"github.com/bartventer/httpcache/internal"
@@ -371,7 +372,7 @@ func (r *transport) handleCacheHit(
 		age := freshness.Age.Value + max(r.clock.Since(freshness.Age.Timestamp), 0)
 		staleFor := age - freshness.UsefulLife
 		if age >= freshness.Age.Value && staleFor >= 0 && staleFor < swr {
-			return r.handleStaleWhileRevalidate(req, stored, urlKey, freshness, ccReq)
+			return r.handleStaleWhileRevalidate(req, stored, urlKey, freshness, ccReq, refs, refIndex)
 		}
 	}
 
@@ -428,7 +429,6 @@ func (r *transport) finishValidation(
 	return out, outErr
 }
 
-
 func (r *transport) serveFromCache(
 	req *http.Request,
 	urlKey string,
@@ -462,6 +462,8 @@ func (r *transport) handleStaleWhileRevalidate(
 	urlKey string,
 	freshness *internal.Freshness,
 	ccReq internal.CCRequestDirectives,
+	refs internal.ResponseRefs,
+	refIndex int,
 ) (*http.Response, error) {
 	req2 := req.Clone(req.Context())
 	req2 = withConditionalHeaders(req2, stored.Data.Header)
@@ -473,7 +475,9 @@ func (r *transport) handleStaleWhileRevalidate(
 	// guaranteed completion.
 	internal.SetAgeHeader(stored.Data, r.clock, freshness.Age)
 	internal.CacheStatusStale.ApplyTo(stored.Data.Header)
-	go r.backgroundRevalidate(req2, stored, urlKey, freshness, ccReq)
+	// The response now belongs to the caller: the background goroutine works on
+	// its own copy of the entry (re-read from the store) and of the index.
+	go r.backgroundRevalidate(req2, stored.ID, urlKey, freshness, ccReq, slices.Clone(refs), refIndex)
 	r.logger.LogCacheStaleRevalidate(req, urlKey, internal.MiscFunc(func() internal.Misc {
 		return internal.Misc{
 			CCReq:     ccReq,
@@ -486,10 +490,12 @@ func (r *transport) handleStaleWhileRevalidate(
 
 func (r *transport) backgroundRevalidate(
 	req *http.Request,
-	stored *internal.Response,
+	storedID string,
 	urlKey string,
 	freshness *internal.Freshness,
 	ccReq internal.CCRequestDirectives,
+	refs internal.ResponseRefs,
+	refIndex int,
 ) {
 	ctx, cancel := context.WithTimeout(req.Context(), r.swrTimeout)
 	defer cancel()
@@ -509,6 +515,11 @@ func (r *transport) backgroundRevalidate(
 			return
 		default:
 		}
+		stored, err := r.cache.Get(storedID, req)
+		if err != nil {
+			errc <- err
+			return
+		}
 		revalCtx := internal.RevalidationContext{
 			URLKey:    urlKey,
 			Start:     start,
@@ -516,9 +527,11 @@ func (r *transport) backgroundRevalidate(
 			CCReq:     ccReq,
 			Stored:    stored,
 			Freshness: freshness,
+			Refs:      refs,
+			RefIndex:  refIndex,
 		}
 		//nolint:bodyclose // The response is not used, so we don't need to close it.
-		_, err = r.vrh.HandleValidationResponse(revalCtx, req, resp, nil)
+		_, err = r.finishValidation(revalCtx, req, resp, nil)
 		errc <- err
 	}()
 
